@@ -149,6 +149,57 @@ func runC30(c *Ctx, rel, typeName string, floorTables int) {
 	}
 	c.Notef("%d %s literals, %d distinct entries", len(tables), typeName, total)
 
+	// ---- R6: every length bucket is probed -----------------------------------------------------
+	// The kernels probe candidate encoded lengths n = 1 … len(entries) (bucket n-1 holds the entries of
+	// length n). Every comparison of a candidate length with the bucket count must treat n == count as
+	// in range: `n <= len(entries)` continues the probe, `n > len(entries)` means "not found". An
+	// exclusive form (`<`, `>=`) silently drops the longest bucket (e.g. 4-byte UTF-8 sequences).
+	if typeName == "RangeMap" && !c.fixtureMode {
+		c.Rule("C30-R6", "every comparison of a candidate rune length with len(inputEntries)/len(outputEntries) in the RangeMap kernels is inclusive of the last bucket (<= continues, > rejects)", 6)
+		info := pk.TypesInfo
+		for _, file := range pk.Syntax {
+			for _, d := range file.Decls {
+				fd, ok := d.(*ast.FuncDecl)
+				if !ok || fd.Body == nil || fd.Recv == nil || !strings.HasPrefix(DeclName(fd), typeName+".") {
+					continue
+				}
+				ast.Inspect(fd.Body, func(n ast.Node) bool {
+					be, ok := n.(*ast.BinaryExpr)
+					if !ok {
+						return true
+					}
+					isCount := func(e ast.Expr) bool {
+						call, ok := ast.Unparen(e).(*ast.CallExpr)
+						if !ok || !IsBuiltinCall(info, call, "len") || len(call.Args) != 1 {
+							return false
+						}
+						se, ok := ast.Unparen(call.Args[0]).(*ast.SelectorExpr)
+						return ok && (se.Sel.Name == "inputEntries" || se.Sel.Name == "outputEntries")
+					}
+					op := be.Op
+					var other ast.Expr
+					switch {
+					case isCount(be.Y):
+						other = be.X
+					case isCount(be.X):
+						other = be.Y
+						// mirror the operator so that it reads `other op count`
+						op = map[token.Token]token.Token{token.LSS: token.GTR, token.GTR: token.LSS, token.LEQ: token.GEQ, token.GEQ: token.LEQ}[be.Op]
+					default:
+						return true
+					}
+					if op != token.LSS && op != token.LEQ && op != token.GTR && op != token.GEQ {
+						return true
+					}
+					key := DeclName(fd) + "/" + types.ExprString(other) + " vs " + types.ExprString(be)[strings.LastIndex(types.ExprString(be), "len("):]
+					c.Check(op == token.LEQ || op == token.GTR, "C30-R6", key, be.Pos(), types.ExprString(be),
+						fmt.Sprintf("`%s` excludes a candidate length equal to the number of length buckets: the longest encodings (last bucket) are never looked up / are reported as unknown, so representable characters do not round-trip", types.ExprString(be)))
+					return true
+				})
+			}
+		}
+	}
+
 	// ---- R5: bounds of the kernels (engine eng_bounds.go; the same obligations are also registered under C10-B1).
 	// Exceptions inside the engine name the table-shape invariant R1 that the rules above establish.
 	if typeName == "RangeMap" && !c.fixtureMode {
